@@ -87,6 +87,11 @@ def cases(tier, seed):
         for e in ('sw', 'gp', 'odd', 'gp-right', 'half', 'cp'):
             out.append(dict(kind='expr', cfg=cfg, expr=e, mode='array', res_like=False))
             out.append(dict(kind='expr', cfg=cfg, expr=e, mode='array', res_like=True))
+        # numeric other inputs with COMPLEX coefficients, and an expression whose only input is x while the other factor is a
+        # symbolic multivector captured by the function (concrete sampling of the dtype plumbing, stated as such)
+        for e in ('sw', 'gp', 'cp'):
+            out.append(dict(kind='expr-concrete', cfg=cfg, expr=e, sub='complex'))
+            out.append(dict(kind='expr-concrete', cfg=cfg, expr=e, sub='captured-symbolic'))
         # the NAME of the symbolic last argument is not part of the contract (single capital letters are what the
         # implementation uses for its own stand-ins of array-valued inputs)
         for e, xname in (('sw', 'A'), ('gp', 'A'), ('cp', 'B'), ('half', 'A'), ('sw', 'R')):
@@ -192,7 +197,54 @@ def run_case(desc, V):
         return claims
     if kind == 'expr':
         return _run_expr(desc, V, alg)
+    if kind == 'expr-concrete':
+        return _run_expr_concrete(desc, alg)
     raise ValueError(kind)
+
+
+def _run_expr_concrete(desc, alg):
+    import sympy
+    from kingdon.matrixreps import expr_as_matrix
+    from kingdon.multivector import MultiVector
+    from ..core import concrete_equal
+    spec = EXPRS[desc['expr']]
+    f = eval(spec[0])
+    kR, kx = _keys_of(alg, spec[1]), _keys_of(alg, spec[2])
+    x = alg.multivector(name='x', keys=tuple(kx))
+    xv = [0.5 + 0.25 * i for i in range(len(kx))]
+    claims = [Note('nontrivial', ''), Eq('reached', 1, 1)]
+    fkey = f'expr-concrete|{desc["sub"]}'
+    try:
+        if desc['sub'] == 'complex':
+            Rv = [complex(1 + i, 2 - i) for i in range(len(kR))]
+            R = alg.multivector(keys=tuple(kR), values=list(Rv))
+            A, y = expr_as_matrix(f, R, x)
+            sub = {}
+        else:
+            Rs = alg.multivector(name='R', keys=tuple(kR))
+            Rv = [1.5 - 0.5 * i for i in range(len(kR))]
+            A, y = expr_as_matrix(lambda x_: f(Rs, x_), x)
+            sub = dict(zip(Rs.values(), Rv))
+            R = alg.multivector(keys=tuple(kR), values=list(Rv))
+    except Exception as e:  # noqa
+        return claims + [Fail('expr-concrete:raises', f'expr_as_matrix raises {type(e).__name__}: {e}', fkey=fkey + '|raises')]
+    want = coeffs(f(R, alg.multivector(keys=tuple(kx), values=list(xv))))
+    rows = []
+    for i in range(len(y)):
+        row = 0
+        for j in range(len(xv)):
+            aij = A[i][j] if isinstance(A, list) else A[i, j]
+            if isinstance(aij, sympy.Basic):
+                aij = complex(aij.subs(sub))
+            row = row + complex(aij) * xv[j]
+        rows.append(row)
+    for i, k in enumerate(y.keys()):
+        if not concrete_equal(rows[i], want.get(k, 0), tol=1e-9):
+            claims.append(Fail(f'A.x[{k}]', f'A . x = {rows[i]!r} on blade {k}, f(R, x) has {want.get(k, 0)!r}', fkey=fkey + '|A.x=y'))
+    for k, v in want.items():
+        if k not in y.keys() and not concrete_equal(v, 0, tol=1e-9):
+            claims.append(Fail(f'y-missing[{k}]', f'y lacks blade {k} = {v!r}', fkey=fkey + '|y'))
+    return claims
 
 
 def _run_expr(desc, V, alg):
